@@ -281,9 +281,12 @@ def Goal (t : Ast) : Prop :=
 theorem not_operand_rparen (p : Prev) (h : Expects p) : ¬ (p = .operand ∨ p = .rparen) := by
   rcases h with h | h | h <;> simp [h]
 
+theorem not_operand_rparen_percent (p : Prev) (h : Expects p) : ¬ (p = .operand ∨ p = .rparen ∨ p = .percent) := by
+  rcases h with h | h | h <;> simp [h]
+
 theorem goal_operand (k : OKind) (text : String) : Goal (.operand k text) := by
   intro s he ht _
-  have h1 := not_operand_rparen s.prev he
+  have h1 := not_operand_rparen_percent s.prev he
   apply runToks_single
   · simp [step, h1, after, pushOperand, pend, core, prevAfter]
   · exact topLO_ne s.st ht
@@ -359,7 +362,7 @@ theorem goal_bin (name : String) (a b : Ast) (hn : name ∈ binNames) (hca : Can
     (iha : Goal a) (ihb : Goal b) : Goal (.op name [a, b]) := by
   intro s he ht _
   obtain ⟨⟨p, hp, hp5⟩, har, hrg, hnp, hns⟩ := bin_facts name hn
-  have h1 := not_operand_rparen s.prev he
+  have h1 := not_operand_rparen_percent s.prev he
   have htoks : toks (.op name [a, b]) = .lp :: (toks a ++ (.opr name :: (toks b ++ [.rp]))) := by
     simp [toks, toksBin, hnp, hns]
   rw [htoks]
@@ -451,7 +454,7 @@ theorem run_args : ∀ (args : List Ast), args ≠ [] → (∀ a ∈ args, Canon
 theorem goal_call (name : String) (args : List Ast) (hc : ∀ a ∈ args, Canon a) (hg : ∀ a ∈ args, Goal a) :
     Goal (.call name args) := by
   intro s he ht _
-  have h1 := not_operand_rparen s.prev he
+  have h1 := not_operand_rparen_percent s.prev he
   have hst : s.st ≠ [] := by
     intro h; rw [h] at ht; simp [TopLO] at ht
   have htoks : toks (.call name args) = .fn name :: (toksSep args ++ [.rp]) := by simp [toks]
@@ -509,7 +512,7 @@ namespace XL
 parentheses leave exactly that tree on the builder -/
 theorem paren_transparent (t : Ast) (hc : Canon t) (s : PState) (he : Expects s.prev) (ht : TopLO s.st) :
     runToks (.lp :: (toks t ++ [.rp])) s = .ok ⟨bump s.st, t :: s.out, .rparen⟩ := by
-  have h1 := not_operand_rparen s.prev he
+  have h1 := not_operand_rparen_percent s.prev he
   have hst : s.st ≠ [] := by
     intro h; rw [h] at ht; simp [TopLO] at ht
   have hlp : step s .lp = .ok ⟨.lp 0 .pos false :: s.st, s.out, .lparen⟩ := by simp [step, h1]
